@@ -100,6 +100,9 @@ CLAIMS = {
 }
 # round of 2026-10-01: what was added per property (technique suffix, level-text suffix, new level note or None)
 ADDENDA = {
+    'C01': ('; independence of the control matrix, filter functions and infidelity of WHICH eigh output is used (module C01Unique)',
+            ' The modelled control matrix is proved to be the same array for any two eigen-decompositions satisfying the eigh contract (phases, bases of degenerate eigenspaces, order of eigenvalues), for every guard kind and threshold, so LAPACK\'s freedom cannot show in any result.',
+            None),
     'C02': ('; times and propagators of concatenated / tiled / remapped / extended pulses (modules C04Tile, C06Def)',
             ' Times, duration and cumulative propagators of concatenated and periodically repeated pulses (any number of pulses, each with its own eigh output) and the times of remapped / extended pulses are theorems about the models Tile / RemapDef, which are run against the real functions.',
             'LAPACK eigh is an oracle (contract measured, not proved); floating point not modelled (the search runs every oracle in units of time from 1e-9 to 1e9).'),
@@ -109,19 +112,28 @@ ADDENDA = {
             ' Everything concatenate_periodic stores for the definition and propagator part equals the from-scratch quantities of the tiled pulse (concatPeriodicDef_eq_from_scratch), for every G >= 1, including pulses whose total propagator is the identity (the solve contract cannot be met there and the fallback gives G*1).',
             'linalg.solve/det are oracles with stated contracts; floating-point conditioning near singular frequencies is measured (1e-6), not proved.'),
     'C05': ('; definition part of extend on abstract pulses (model RemapDef, module C06Def): identifier mappings, operator placement, additional noise Hamiltonian by identifier, times, exact error classes',
-            ' The Hamiltonian bookkeeping of extend (which operator, coefficient row and identifier end up where; default and given identifier mappings; additional noise Hamiltonian looked up by identifier; rejections) is a Lean model run against the real function; it exposed defect F48 (duplicate identifiers after mapping), repaired.',
-            'The numerical content of _merge_attrs/_insert_attrs beyond the factor order is validated, not proved; n-fold extension follows from the binary rule plus C06 but is not stated as one theorem.'),
+            ' The Hamiltonian bookkeeping of extend (which operator, coefficient row and identifier end up where; default and given identifier mappings; additional noise Hamiltonian looked up by identifier; rejections) is a Lean model run against the real function; it exposed defect F48 (duplicate identifiers after mapping), repaired. The n-fold extension rule is now one theorem (modules C05Nfold / C05NfoldAsm, model ExtendAsm): for any number of pulses on arbitrary interleaved ascending qubit tuples plus idle qubits, the control matrix and every block of the filter function that extend assembles equal the from-scratch quantities of the tensor-product pulse.',
+            'The register arrays handed to the n-fold theorems being the flattened Kronecker products (the einsum content of _merge_attrs/_insert_attrs) is a hypothesis, validated by correspondence; non-ascending multi-qubit tuples go through remap first (C06).'),
     'C06': ('; definition part of remap on abstract pulses (model RemapDef, module C06Def): identifier mapping, argsort order, association of operators / coefficients / identifiers, composition, identity, cached rows follow the new noise-operator order',
             ' The identifier mapping of remap is now modelled and proved (remapDef_keeps_association, remapDef_compose, remap_cached_rows_follow_noise_order) and run against the real function.',
             'np.argsort on strings is stable only up to 16 elements (observed); after the repair of F48 tied identifiers are rejected; non-Pauli / incomplete bases: remap keeps the cached filter function, wrong only for incomplete bases not invariant under the permutation (noted).'),
+    'C08': ('; every branch of _get_integrand (models Integrand / IntegrandShape): filter-function path = control-matrix path, correlations sum to the total, exactly the documented rejections (module C08Integrand)',
+            ' The filter-function input path of _get_integrand is now modelled and proved equivalent to the control-matrix path (also inside the memory-parsimonious loop and for pulse correlations), so the reported numbers cannot depend on whether a generalized filter function happens to be cached.',
+            'return_smallness and test_convergence are not modelled; option plumbing beyond the path selection is validated by search.'),
     'C09': ('; conditional complete positivity of the first-order cumulant function and of every Lindblad generator (projected Choi matrix PSD), second order = unitary part, complete positivity of exp(K) (Euler limit in a Banach algebra + closed cone of CP maps), verdicts of liouville_is_CP / liouville_is_cCP under the eigenvalue oracle (modules C09cCP, C09EtmCP, C09EtmCPLiou, C09EtmChoi)',
             ' For every complete orthonormal Hermitian basis containing a multiple of the identity and every real symmetric positive-semidefinite matrix of decay amplitudes, the first-order cumulant function passes the package\'s cCP test and the error transfer matrix exp(K) (also with the second-order part, also for sums over noise sources) has a positive-semidefinite Choi matrix, i.e. passes liouville_is_CP.',
             'expm and the eigenvalue routine are oracles; complete positivity is proved for real symmetric PSD decay amplitudes (what the package forms for PSD spectra) — for a complex Hermitian matrix the statement is false; the sparse COO path of the trace tensor is validated by search.'),
     'C10': ('; model of calculate_frequency_shifts (three spectrum shapes, subsets): entries, slices, linearity, dependence on the F2 values only (reuse of intermediates), Hermitian part = decay amplitudes (module C10Shifts)',
             ' The frequency shifts are proved to be the trapezoid of S x F2 / 2 pi and to depend only on the second-order filter function values, so reusing cached intermediates that equal the fresh ones cannot change them.', None),
     'C11': ('; the array assembly of the control-matrix derivative (model GradientAsm: tensor / diagonal / F-order reshapes / einsums / sensitivity term / Liouville derivative) equals the product-rule formula and HasDerivAt the control-matrix model (modules C11Asm, C11AsmDeriv)',
-            ' The assembled control-matrix derivative is proved to be the derivative (HasDerivAt) of the control-matrix model with respect to each control amplitude on each segment, with and without control-dependent sensitivities, and composed with the filter-function derivative formula; the assembly model is run against calculate_derivative_of_control_matrix_from_scratch on the pulse\'s own eigen-data.',
-            'The derivative theorems exclude the grey zones of the absolute masks by hypothesis (open findings F12: division by a zero sensitivity, F30: grey zone); the trapezoid integration over frequency is linear but not composed; reuse of cached intermediates is covered by C07 and the search.'),
+            ' The assembled control-matrix derivative is proved to be the derivative (HasDerivAt) of the control-matrix model with respect to each control amplitude on each segment, with and without control-dependent sensitivities, and composed with the filter-function derivative formula and with the trapezoid integration (module C11Infid: infidelity_derivative is the derivative of the infidelity the package reports, also with control-dependent sensitivities and noise operators with a trace — after the repair of F49, which this proof exposed); the assembly model is run against calculate_derivative_of_control_matrix_from_scratch on the pulse\'s own eigen-data.',
+            'The derivative theorems exclude the grey zones of the absolute masks by hypothesis (open findings F12: division by a zero sensitivity, F30: grey zone); reuse of cached intermediates is covered by C07 and the search; 3-d spectra in infidelity_derivative are outside the per-operator shapes and not modelled.'),
+    'C13': ('; the same invariances for the SECOND-order filter function and the frequency shifts (modules C13Second, C13SecondShifts, C13SecondRefine), independence of the eigh output (C01Unique)',
+            ' For the second-order filter function model: factor lambda^2 under a change of the time unit (the exact-zero masks are scale invariant), invariance under zero-length segments, splits, merges and arbitrary refinements (Hermitian operators), operator order, bilinearity in the sensitivities; each re-segmented pulse may come with its own eigh output.',
+            None),
+    'C20': ('; extend / remap with identifier mappings in the Validate model (control identifiers, KeyError for incomplete mappings, duplicate identifiers after mapping — F48)',
+            ' After the repair of F48 the validators of extend and remap include the identifier mappings: a mapping is accepted iff it is complete and yields unique control and noise identifiers.',
+            None),
     'C12': ('; frequency shifts and second-order filter function under a change of basis, error transfer matrix with second order from pulse data (module C10Shifts)',
             ' The second-order part is now included end to end: K\' = O K O^T and exp(sum K\') = O exp(sum K) O^T from the pulse data, for any two complete orthonormal Hermitian bases.', None),
     'C15': ('; Kraus <-> Choi (cp_iff_kraus), closure of the CP cone under sums, products and limits, exp of a Lindblad generator is CP, convex mixtures CP, negative Kraus weight not CP with an explicit tolerance bound, Lindblad generators pass / non-Lindblad generators fail the cCP test, closed-form Gell-Mann path = generic path for every d, stacks, total Liouville propagator = product (modules C15CP, C09cCP)',
